@@ -1181,3 +1181,29 @@ def m_range_contains(ex, st, call):
 def m_wrapping_neg(ex, st, call):
     a = call.args[0]
     return ex.ret(st, call, Int(-a.e, a.signed))
+
+
+@model(r'^Vec::retain$')
+def m_vec_retain(ex, st, call):
+    r, f = call.args
+    v = deref(ex, st, r)
+    if not isinstance(v, VecV):
+        return None
+    items = list(v.items)
+
+    def go(s, k, kept):
+        if k == len(items):
+            ex.store(s, r.addr, r.path, VecV(kept, v.elem_ty))
+            return ex.ret(s, call, UNIT)
+        a = s.alloc(items[k])
+
+        def cont(ex_, s2, res):
+            return two_way(ex_, s2, res.e, lambda s3: go(s3, k + 1, kept + [items[k]]), lambda s3: go(s3, k + 1, kept))
+        return ex.invoke_callable(s, f, [Ref(a)], cont)
+    return go(st, 0, [])
+
+
+@model(r'^math::fract$|^libm::fract$')
+def m_math_fract(ex, st, call):
+    x = call.args[0].e
+    return ex.ret(st, call, Float(z3.fpSub(RNE, x, z3.fpRoundToIntegral(RTZ, x))))
